@@ -71,12 +71,12 @@ fn one(recs: &[(String, Vec<u8>)], container: &str) -> Option<Vec<(String, Strin
     let sc = Scratch::new("reader");
     let parts: Vec<&str> = container.split(':').collect();
     let (path, bytes): (String, Vec<u8>) = match parts[0] {
-        "fa" => (sc.path("x.fa"), fasta_bytes(recs, 0, false)),
+        "fa" => (sc.path("GCF_000005845.2_ASM584v2_genomic.fa"), fasta_bytes(recs, 0, false)),
         "fa-wrap" => (sc.path("x.fasta"), fasta_bytes(recs, parts[1].parse().unwrap(), false)),
-        "fa-crlf" => (sc.path("x.fna"), fasta_bytes(recs, 0, true)),
+        "fa-crlf" => (sc.path("assembly.v2.fna"), fasta_bytes(recs, 0, true)),
         "fq" => (sc.path("x.fq"), fastq_bytes(recs)),
         "fa-gz" => (sc.path("x.fa.gz"), gz(&fasta_bytes(recs, 0, false))),
-        "fq-gz" => (sc.path("x.fastq.gz"), gz(&fastq_bytes(recs))),
+        "fq-gz" => (sc.path("sample.R1.fastq.gz"), gz(&fastq_bytes(recs))),
         "fa-gz-multi" => {
             // one gzip member per `split` records, concatenated (bgzip / cat a.gz b.gz)
             let split: usize = parts[1].parse().unwrap();
